@@ -192,6 +192,9 @@ func cmdCheck(args []string) int {
 				}
 			}
 			if !found {
+				for _, v := range es.Violations {
+					fmt.Printf("  witness %s: other violation label=%s %s\n", e.Name, v.Label, v.Msg)
+				}
 				problems = append(problems, fmt.Sprintf("witness %s: reachability assertion was not violated (harness vacuous)", e.Name))
 			}
 			continue
